@@ -462,6 +462,31 @@ def case_json(case):
             "impl_output": C.jsonable(o["out"]), "impl_exc": o["exc"]}
 
 
+def case_from_json(j):
+    """Inverse of case_json (for ./check Cxx quick --replay file): rebuilds the inputs; the implementation is re-run."""
+    names = j["candidates"]
+    fn = j["asn_func"]
+    return {"n": len(names), "names": names,
+            "types": [(tuple(b), k) for b, k in j["ballot_types(indices into candidates, multiplicity)"]],
+            "nocontest": j.get("cvrs_without_contest", 0), "tot": j["tot_ballots"], "winner": j["winner_index"],
+            "bp": fn.startswith("bp"), "exact": fn.endswith("_fraction"), "order": j.get("order_hint"),
+            "second": j.get("second_call_on_same_objects", False), "tag": "replay/" + "/".join((j.get("tag") or "").split("/")[1:])}
+
+
+def replay_cases(ctx):
+    """The cases named by a replay file (failing-input or first disagreeing case), or None."""
+    rp = getattr(ctx, "replay", None)
+    if not rp:
+        return None
+    js = []
+    if isinstance(rp.get("violation"), dict) and isinstance(rp["violation"].get("input"), dict):
+        js.append(rp["violation"]["input"])
+    for b in rp.get("no_longer_checks", []) + rp.get("broken_ties", []):
+        if isinstance(b, dict) and isinstance(b.get("first_case"), dict):
+            js.append(b["first_case"])
+    return [case_from_json(j) for j in js if "candidates" in j] or None
+
+
 def digest(case):
     return repr((case["n"], case["types"], case.get("nocontest", 0), case["tot"], case["winner"], case["bp"],
                  case["order"]))
